@@ -11,9 +11,9 @@ import (
 	"errors"
 	"fmt"
 	"io/ioutil"
-	"strconv"
 	"math/big"
 	"math/rand"
+	"strconv"
 	"strings"
 	"sync"
 	"time"
@@ -71,15 +71,6 @@ var errRejected = errors.New("protobuf decoding fails")
 
 type handled struct{}
 
-func has(stack string, frames ...string) bool {
-	for _, f := range frames {
-		if strings.Contains(stack, f) {
-			return true
-		}
-	}
-	return false
-}
-
 // lastDecodable: did the independent protobuf decode of the last handler input succeed
 // (booted parsers run on one goroutine).
 var lastDecodable bool
@@ -92,11 +83,6 @@ func signCheckLogLine(cr callRes) bool {
 		return false
 	}
 	lines := strings.Split(cr.stack, "\n")
-	for i, l := range lines {
-		if strings.HasPrefix(l, "com.tuntun.rangers/node/") && i+1 < len(lines) && i > 0 && !strings.HasPrefix(lines[i-1], "\t") == false {
-			_ = l
-		}
-	}
 	seenPanic := false
 	for i, l := range lines {
 		if strings.HasPrefix(l, "panic(") {
@@ -335,6 +321,15 @@ func (e *engine) hostileBooted() {
 	csV, ksV := signVariants(cs), signVariants(ks)
 	hdrs, grps := hostileHeaders(), hostileGroups()
 	goodHdr, goodTx := headerMsg(0).all(), txMsg(0).all()
+	// well-formed sub-messages written by the node's own marshallers, and their damaged forms
+	hdrs = append(hdrs, nodeHeaders...)
+	grps = append(grps, nodeGroups...)
+	for _, h := range nodeHeaders {
+		hdrs = append(hdrs, hostile{h.b[:len(h.b)/2], h.note + " truncated"})
+	}
+	for _, g := range nodeGroups {
+		grps = append(grps, hostile{g.b[:len(g.b)/2], g.note + " truncated"})
+	}
 
 	// consensus (exported decoders)
 	cast := message{req(fB("Bh", 1, goodHdr)), fB("GroupID", 2, seqBytes(32, 1)), req(fB("Sign", 3, cs.all())), fRep("ProveHash", 4, seqBytes(32, 2), seqBytes(32, 3))}
@@ -364,7 +359,10 @@ func (e *engine) hostileBooted() {
 	for i := range tm {
 		blks = append(blks, hostile{blockMsg(goodHdr, tm.enc(tm.full()&^(1<<uint(i)))).all(), "Block{tx missing=" + tm[i].name + "}"})
 	}
-	blks = append(blks, hostile{blockMsg(goodHdr).enc(2), "Block missing=Header"}, hostile{nil, "Block empty"})
+	blks = append(blks, hostile{blockMsg(goodHdr).enc(2), "Block missing=Header"}, hostile{nil, "Block empty"},
+		hostile{[]byte{0x0a}, "Block truncated after the Header tag"}, hostile{[]byte{0x0a, 0xff}, "Block truncated length varint"},
+		hostile{[]byte{0x0a, 0x00}, "Block with an empty Header"}, hostile{[]byte{0x12, 0x00}, "Block with one empty transaction and no Header"})
+	blks = append(blks, nodeBlocks...)
 	resp := message{req(fV("IsLast", 1, 1)), fB("Block", 2, blockMsg(goodHdr, goodTx).all()), req(fB("SignInfo", 3, ks.all()))}
 	e.family(bootedByName("handler:"+notify.BlockResponse), resp, "BlockMsgResponse", map[string][]hostile{"Block": blks, "SignInfo": ksV}, nMut, nRand)
 	gresp := message{req(fV("IsLast", 1, 0)), fB("Group", 2, groupMsg(groupHeaderMsg(0).all(), 0).all()), req(fB("SignInfo", 3, ks.all()))}
@@ -375,13 +373,65 @@ func (e *engine) hostileBooted() {
 	e.family(bootedByName("handler:"+notify.TransactionReq), treq, "TransactionRequestMessage",
 		map[string][]hostile{"TransactionHashes": {{txHashMsg(1).enc(0), "empty"}, {txHashMsg(1).enc(1), "no subHash"}, {seqBytes(40, 0x0a), "garbage"}}}, nMut, nRand)
 	nb := bootedByName("handler:" + notify.NewBlock)
+	e.family(nb, blockMsg(goodHdr, goodTx, goodTx), "Block", map[string][]hostile{"Header": hdrs}, nMut, nRand)
 	e.runList(nb, blks, nil)
-	e.runList(nb, mutations(blockMsg(goodHdr, goodTx).all(), 0, nil, "Block "), nil)
-	e.runGen(nb, "random", nRand, func(rng *rand.Rand, k int) hostile { return randomBytes(1, rng, 4)[0] })
+	for _, b := range nodeBlocks { // blocks the node produced itself, then every truncation / bit flip of them
+		e.runList(nb, mutations(b.b, 0, nil, b.note+" "), nil)
+		vb := b
+		e.runGen(nb, "mut-node", nMut/4, func(rng *rand.Rand, k int) hostile { return mutations1(vb.b, rng, vb.note+" ", k) })
+	}
+	e.mu.Lock()
+	e.cnt["node_messages_to_handlers"] += int64(len(nodeBlocks) + len(nodeHeaders) + len(nodeGroups))
+	e.mu.Unlock()
+
+	// transactions answered by a peer (TransactionGotMsg): decoded and admitted inside WorkerConn.handleMessage
+	tg := bootedByName("handler:transaction_got")
+	e.family(tg, txSliceMsg(goodTx, txMsg(1).all()), "TransactionSlice", nil, nMut, nRand)
+	for v := 0; v < 2; v++ {
+		m := txMsg(v)
+		e.subsets(tg, m, fmt.Sprintf("TransactionSlice[1]/v%d", v), singlesDoubles(len(m), 300, r.Rand("tg-subsets", v)), func(b []byte) []byte { return txSliceMsg(goodTx, b).all() })
+		var hs []hostile
+		for _, h := range append(wrongWire(m, "Transaction "), payloads(m, "Transaction ", map[string][][]byte{"Sign": signPayloads})...) {
+			hs = append(hs, hostile{txSliceMsg(h.b).all(), "TransactionSlice{" + h.note + "}"})
+		}
+		e.runList(tg, hs, nil)
+	}
+
+	// ConsensusHandler.Handle, every consensus message code: structured bodies of all kinds, mutations, random bytes
+	var pool []hostile
+	pool = append(pool, hostile{cast.all(), "ConsensusCastMessage"}, hostile{verify.all(), "ConsensusVerifyMessage"}, hostile{nil, "empty body"})
+	pool = append(pool, csV...)
+	pool = append(pool, wrongWire(cast, "ConsensusCastMessage ")...)
+	pool = append(pool, wrongWire(verify, "ConsensusVerifyMessage ")...)
+	for _, h := range csV {
+		pool = append(pool, hostile{cast.with("Sign", item{num: 3, wt: wtBytes, p: h.b}).all(), "ConsensusCastMessage{Sign: " + h.note + "}"})
+		pool = append(pool, hostile{verify.with("Sign", item{num: 3, wt: wtBytes, p: h.b}).all(), "ConsensusVerifyMessage{Sign: " + h.note + "}"})
+		// shapes of the group-creation messages: GHash, bytes, nested, MemCnt, SignData at the field numbers they use
+		pool = append(pool, hostile{message{fB("GHash", 1, seqBytes(32, 1)), fB("f2", 2, h.b), fB("f3", 3, seqBytes(32, 3)), fV("MemCnt", 4, 3), fB("f5", 5, h.b)}.all(), "group-create shape{" + h.note + "}"})
+		pool = append(pool, hostile{message{fB("f1", 1, seqBytes(32, 1)), fB("f2", 2, []byte("ping-1")), fV("f3", 3, 7), fB("f4", 4, h.b)}.all(), "ping shape{" + h.note + "}"})
+	}
+	for _, h := range hdrs[:40] {
+		pool = append(pool, hostile{cast.with("Bh", item{num: 1, wt: wtBytes, p: h.b}).all(), "ConsensusCastMessage{Bh: " + h.note + "}"})
+	}
+	pool = append(pool, mutations(cast.all(), 0, nil, "ConsensusCastMessage ")[:400]...)
+	for _, cc := range consensusCodes {
+		p := bootedByName("consensus.Handle[" + cc.name + "]")
+		e.runList(p, pool, nil)
+		e.runGen(p, "random", nRand/3, func(rng *rand.Rand, k int) hostile { return randomBytes(1, rng, 8)[0] })
+	}
 }
 
 // ---------------------------------------------------------------------------
 // values produced by the node itself
+
+// wire forms of values the node produced (its own marshallers), offered to the handlers
+var nodeBlocks, nodeHeaders, nodeGroups []hostile
+
+func keepNode(list *[]hostile, b []byte, err error, note string) {
+	if err == nil && len(b) > 0 {
+		*list = append(*list, hostile{append([]byte{}, b...), "node-produced " + note})
+	}
+}
 
 func nodeValues(e *engine) {
 	r := e.r
@@ -397,6 +447,12 @@ func nodeValues(e *engine) {
 			roundTrip(r, bk, g, true, c, l)
 			roundTrip(r, hd, g.Header, true, c, l)
 			l["node_values_roundtrip"] += 2
+			if local == "UTC" {
+				b, err := types.MarshalBlock(g)
+				keepNode(&nodeBlocks, b, err, "genesis block")
+				b, err = types.MarshalBlockHeader(g.Header)
+				keepNode(&nodeHeaders, b, err, "genesis header")
+			}
 		}
 		if top := chain.TopBlock(); top != nil {
 			c.Note = "top header"
@@ -442,6 +498,10 @@ func nodeValues(e *engine) {
 				roundTrip(r, bk, blk, true, c, l)
 				l["node_values_roundtrip"]++
 				l["node_cast_blocks"]++
+				b, err := types.MarshalBlock(blk)
+				keepNode(&nodeBlocks, b, err, c.Note)
+				b, err = types.MarshalBlockHeader(blk.Header)
+				keepNode(&nodeHeaders, b, err, c.Note)
 			}
 		}
 		gc := core.GetGroupChain()
@@ -457,6 +517,10 @@ func nodeValues(e *engine) {
 			c.Note = "last group of the group chain"
 			roundTrip(r, gp, g, true, c, l)
 			seen++
+			if local == "UTC" {
+				b, err := types.MarshalGroup(g)
+				keepNode(&nodeGroups, b, err, "last group of the group chain")
+			}
 		}
 		for i, gi := range (&env.Helper{}).GenerateGenesisInfo() {
 			g := gi.Group
@@ -471,7 +535,48 @@ func nodeValues(e *engine) {
 	e.merge(l)
 }
 
+// wireMain: every input of the handler families is first given to the handler synchronously
+// (panics there are judged by the booted child, not here); inputs the handler survives are then
+// handed to WorkerConn.handleMessage (hook H10), which publishes on the bus: the handlers run
+// in goroutines without recover, so a panic there ends this process and the parent reports it.
+func wireMain(r *mon.Run) {
+	bootNode()
+	e := newEngine(r)
+	e.workers = 1
+	e.quiet = true
+	sent := int64(0)
+	e.tap = func(p *parserDef, h hostile, panicked bool) {
+		if panicked || p.code == 0 {
+			return
+		}
+		r.CaseBegin(append([]byte(p.name+"\x00"), h.b...))
+		network.VerifWorkerHandleMessage(p.code, h.b, "peer", common.DefaultLogger)
+		sent++
+		if sent%32 == 0 {
+			time.Sleep(200 * time.Microsecond) // let the handler goroutines run close to their input
+		}
+	}
+	nodeValues(e)
+	e.hostileBooted()
+	// message codes no handler family exists for, and unknown codes: dispatch only
+	for _, code := range []uint32{0, 7, 11, 17, 18, 21, 41, 1 << 31} {
+		for _, b := range [][]byte{nil, {0x0a}, seqBytes(40, 1)} {
+			network.VerifWorkerHandleMessage(code, b, "peer", common.DefaultLogger)
+			sent++
+		}
+	}
+	time.Sleep(500 * time.Millisecond)
+	e.cnt = map[string]int64{} // the booted child counts these executions
+	r.Count("wire_messages_sent", sent)
+	r.Count("wire_child_finished", 1)
+	r.Finish(mon.Coverage{})
+}
+
 func childMain(r *mon.Run, args []string) {
+	if len(args) > 0 && args[0] == "wire" {
+		wireMain(r)
+		return
+	}
 	t0 := time.Now()
 	bootNode()
 	e := newEngine(r)
